@@ -5,6 +5,7 @@ package netsim
 
 import (
 	"fmt"
+	"os"
 	"runtime"
 	"testing/synctest"
 	"time"
@@ -268,7 +269,9 @@ func (w *World) Tracef(format string, a ...interface{}) {
 // yield is the pre-emption hook: with the run's probability (or as the tape
 // says when replaying) the caller moves behind every other runnable goroutine.
 func (w *World) yield(site string) {
-	if w.YieldP <= 0 && !w.Replay {
+	if w.YieldP <= 0 {
+		// (also when replaying: the tape holds one entry per schedule point met while the run's
+		// probability was in force - points met before that, while the world is set up, have none)
 		return
 	}
 	var y bool
@@ -285,11 +288,17 @@ func (w *World) yield(site string) {
 			w.Tape = append(w.Tape, 0)
 		}
 	}
+	if v := os.Getenv("VERIF_YTRACE"); v == "all" || (w.TraceOn && v != "") {
+		YTrace = append(YTrace, fmt.Sprintf("%s %v g%d", site, y, sim.Goid()))
+	}
 	if y {
 		w.Yields[site]++
 		runtime.Gosched()
 	}
 }
+
+// YTrace: debugging aid (VERIF_YTRACE): the schedule points of the traced run, in order.
+var YTrace []string
 
 // AddLink registers a new in-memory NIC.
 func (w *World) AddLink(name string, mtu uint32, caps stack.LinkEndpointCapabilities, addr tcpip.LinkAddress, peer int) *Link {
